@@ -118,3 +118,31 @@ def split_and_judge(trace_path, tag, nrec, chunk=20000):
             f.writelines(body[k:k + chunk])
         jobs.append((lambda p=p, k=k: judge_expr(p, f"{tag}-{k // chunk}")))
     return parallel(jobs, 8)
+
+
+def fuzz_replay(tag, fuzz_args, expr_args, timeout=1200):
+    """`recorder <fuzz_args> | recorder expr <expr_args>`; returns (summary, obs path with a leading table line)."""
+    base = os.path.join(OUT, "work", tag)
+    os.makedirs(os.path.dirname(base), exist_ok=True)
+    obsp, sump = base + ".obs.ndjson", base + ".sum.json"
+    env = dict(os.environ)
+    env["VERIF_SEED"] = str(seed())
+    with open(obsp, "wb") as fo:
+        fo.write(b'{"table":[]}\n')
+        fo.flush()
+        gen = subprocess.Popen([RECORDER] + fuzz_args, stdout=subprocess.PIPE, env=env)
+        rec = subprocess.Popen([RECORDER, "expr"] + expr_args + ["--summary", sump], stdin=gen.stdout, stdout=fo,
+                               stderr=subprocess.PIPE, env=env)
+        gen.stdout.close()
+        try:
+            _, err = rec.communicate(timeout=timeout)
+        except subprocess.TimeoutExpired:
+            gen.kill()
+            rec.kill()
+            raise ToolError(f"timeout in fuzz pipeline {tag}")
+        gen.wait()
+    if rec.returncode != 0 or gen.returncode != 0:
+        # the recorder process itself died: the library aborted (stack overflow / abort), which is data
+        return {"crashed": True, "rc": [gen.returncode, rec.returncode],
+                "stderr": err.decode(errors="replace")[-800:]}, obsp
+    return json.load(open(sump)), obsp
